@@ -19,7 +19,7 @@ cp -r "$here/resolve" "$tmp/resolve"
 for f in ResolveCore ResolveProofs; do run "$tmp/resolve" coqc -Q . R $f.v; done
 echo "resolve: ok"
 cp -r "$here/chain" "$tmp/chain"
-for f in ChainModel ChainProps; do run "$tmp/chain" coqc -Q . C $f.v; done
+for f in ChainModel ChainProps ChainInv; do run "$tmp/chain" coqc -Q . C $f.v; done
 echo "chain: ok"
 cp -r "$here/cli" "$tmp/cli"
 for f in CliIR CliGen CliProps; do run "$tmp/cli" coqc $f.v; done
